@@ -106,6 +106,28 @@ PROPS.update({
         "explanation": "oracle: per symbol, rows of the multi-symbol query == rows of the single query; projected query has the same rows/times, exactly the requested existing columns, same values",
         "budget": {"quick": 35, "thorough": 600},
     },
+    "C14": {
+        "level": "exploration", "engine": "MODEL",
+        "rule": ("2-3 buckets (fixed or variable, all element types) with a baseline history; then one scenario request: missing / extra / renamed column (must be rejected), "
+                 "reordered columns and a retyped column (match by name: must be accepted, values by name / numerically converted), or one dataset naming several buckets of which "
+                 "one does not match (must be rejected as a whole); afterwards virtual time passes the next flush tick and an unrelated write is issued; every named bucket is "
+                 "compared with the model right after the request, after the tick, after the next write and after its tick; "
+                 "distinct_nontrivial = distinct (scenario, record kind, shared-layout, background writer, #buckets)"),
+        "faults": ["none (fault-free configuration)", "virtual-time flush ticker", "seeded map iteration order of the request's buckets"],
+        "assumptions": [A_MODEL, "float columns are never sent as 8/16-bit integers (out-of-range float->int conversion is implementation defined)"],
+        "explanation": "oracle: a rejected request leaves every bucket it names equal to the model at all later times; an accepted retyped/reordered request stores, per column name, Go's numeric conversion of the sent value",
+        "budget": {"quick": 35, "thorough": 600},
+    },
+    "C15": {
+        "level": "exploration", "engine": "MODEL",
+        "rule": ("one bucket per run: column count 1-6 (10%: 30-230; thorough also 900-1100), name lengths 1-8 / around 32 / 33-72 / 250-310 bytes, all element types, all timeframes, "
+                 "both record types; writes including the first interval of a year; sleeps up to 400 virtual seconds; graceful restart; GetInfo after create and after restart, then a matching "
+                 "write must be accepted and a renamed-column write rejected; distinct_nontrivial = distinct (kind, timeframe, #columns, name-length class, longest name/8)"),
+        "faults": ["none (fault-free configuration)", "graceful restart", "virtual-time checkpoint"],
+        "assumptions": [A_MODEL],
+        "explanation": "oracle: reported schema (names, types, timeframe, record type) == created schema after create and after restart, or the creation was rejected; the schema is still enforced after restart",
+        "budget": {"quick": 40, "thorough": 600},
+    },
     "C09": {
         "level": "exploration", "engine": "MODEL", "rule": MODEL_RULE,
         "faults": ["none (fault-free configuration)", "graceful restart", "compression on/off", "highly compressible payload bursts"],
